@@ -8,18 +8,32 @@ CFG = dict(
         "table_shapes", "table_rows_wellformed", "table_caseIndex", "table_edges_are_lattice_edges",
         "table_edges_cross", "table_nondegenerate", "table_no_duplicate_edge", "table_interior_balanced",
         "table_canon_empty", "table_face_canonical", "table_cell_flow", "table_face_consistent",
+        "table_case_edges_nodup", "table_canon_no_antiparallel",
         # gluing: arbitrary box, arbitrary sign pattern, boundary layer outside
-        "march_closed_balanced",
+        "march_closed_balanced", "cells_glue_face", "cell_edges_nodup", "C09_closed_partial",
+        # weld
+        "weld_preserves_balance", "weld_nondegenerate",
         # block storage
         "blockFetch_eq_global", "fetchCell_eq_global", "skipped_cells_outside", "addField_axis_partition",
         "addField_allocates_neighbourhood",
         # interpolation / isosurface
         "interp_between", "interp_on_segment", "interp_symmetric", "vertex_near_isosurface",
     ],
-    streams=[dict(name="c09", n=dict(quick=8, thorough=120), timeout=dict(quick=600, thorough=3600))],
+    streams=[dict(name="c09", n=dict(quick=8, thorough=80), timeout=dict(quick=600, thorough=3600))],
     trusted=T_COMMON + [
         "engine F extractor /verif/go/facts/c09.go (go/parser; every unexpected AST shape is an error)",
+        "driver's Float transcription of sdf.Sphere/Box/Line and of 'union = min' (used only by the near_iso oracle)",
+        "driver's n log n evaluation of Closed (cross-checked against the quadratic specification predicate on meshes <= 150 triangles on every run)",
     ],
-    residue=[],
+    residue=[
+        "'matched by EXACTLY one': C09_closed_full (Balanced ∧ Nodup of the box's directed edges) is a def, not a theorem; proved: balance over any box (march_closed_balanced), no duplicate inside a cell (cell_edges_nodup), opposite segments on a shared face (cells_glue_face); across cells decided per run by c09.holds.closed",
+        "outward orientation / positive enclosed volume: decided per run by c09.holds.outward (signed volume, Float), no theorem",
+        "float-keyed vertex sharing (LookupOrAdd at 1e-4, WeldByFloat3Attribute at 1e-3): theorems identify a vertex with its lattice edge (exact arithmetic, interp_symmetric); that rounded float keys realise exactly this identification (no pinching, cell size >> 1e-3) is observed on the final mesh by the oracles; weld_preserves_balance covers any merge",
+        "that the cells the real marcher visits differ from a bounding box only by all-outside cells: skipped_cells_outside + empty row 0, not assembled into one statement with march_closed_balanced",
+        "canvasPosToChunkPos computes floor(x/100) through float64 (exact for |x| < 2^46): assumed, tied by the grid correspondence at negative coordinates",
+        "vertex within one cell of the TRUE isosurface: vertex_near_isosurface (IVT along the lattice edge, f continuous) + interp_between are theorems; that the analytic field changes sign along the very edge each output vertex lies on is the per-run oracle c09.holds.near_iso",
+        "IEEE rounding of interpolateVerts; Float2/Float3 canvases, texture helpers, AddFieldParallel*/MarchParallel (C10) out of scope",
+        "oracle lines are compiled Lean predicates applied to implementation output: evidence, not proof",
+    ],
     assumptions=["float64 arithmetic in Go on amd64 is IEEE-754 without FMA contraction"],
 )
